@@ -11,7 +11,9 @@ EVIDENCE = dict(
          "controller of every type under every unit (complete enumeration, 16 processes), every enum member and both "
          "booleans; the observed tables are shipped to TLC in lossless affine run-length form (tables that are "
          "literally identical are shipped once with the list of controllers that produced them) and Trace_RVCtl "
-         "checks them against ToRaw/FromRaw and the pattern envelope of each controller's YAML range. "
+         "checks them against ToRaw/FromRaw and the pattern envelope of each controller's YAML range. The same tables are "
+         "observed through a MetaModule's user-defined controller mapped onto every controller with a negative minimum or a "
+         "unit-dependent range (and a quarter of the others), freshly built and after a file round trip. "
          "evaluations = (controller, unit, value) triples executed; non-trivial = value differs from the minimum.",
     explanation="finite domain enumerated completely")
 
